@@ -186,7 +186,10 @@ class Index:
         self.keyed_tables = canon.inline_keyed_tables(self)
         self.zero_width_guards = canon.drop_zero_width_guards(self)
         self.counters = canon.desugar_counters(self)
+        self.counting_loops = canon.desugar_counting_loops(self)
+        self.setdefault_guards = canon.desugar_setdefault_identity(self)
         self.fused = canon.fuse_record_lists(self)
+        self.equality_loops = canon.switch_for_equality_loops(self)
         self.temporaries = canon.inline_single_use_temporaries(self)
         self.positional = canon.positional_calls(self)
         self.aliased = canon.attach_aliased_methods(self)
